@@ -1102,6 +1102,16 @@ func (st *State) container(s SliceV) Value {
 // called with the path specialised to each value. Always returns false.
 func (ex *Exec) forkOnValues(st *State, t *Term, max int, what string, cont func(st *State, v uint64) bool) bool {
 	var vals []uint64
+	// small values first, without reading models (model evaluation over array-heavy path
+	// conditions can be very slow in z3): if t < max is implied, probe 0..max-1 one by one
+	if ex.sol.Check(bvCmp("bvuge", t, bvConst(uint64(max), t.w))) == "unsat" {
+		for v := 0; v < max; v++ {
+			if ex.sol.Check(tEq(t, bvConst(uint64(v), t.w))) != "unsat" {
+				vals = append(vals, uint64(v))
+			}
+		}
+		return ex.forkOnList(st, t, vals, cont)
+	}
 	ex.sol.Push()
 	for len(vals) <= max {
 		if ex.sol.Check() != "sat" {
@@ -1121,6 +1131,13 @@ func (ex *Exec) forkOnValues(st *State, t *Term, max int, what string, cont func
 		fail("more than %d feasible values for %s", max, what)
 	}
 	sort.Slice(vals, func(i, j int) bool { return vals[i] < vals[j] })
+	return ex.forkOnList(st, t, vals, cont)
+}
+
+func (ex *Exec) forkOnList(st *State, t *Term, vals []uint64, cont func(st *State, v uint64) bool) bool {
+	if ex.noFork > 0 && len(vals) > 1 {
+		fail("fork inside a synchronous call")
+	}
 	if len(vals) == 0 {
 		ex.Infeasible++
 		ex.endPath(st, "infeasible")
@@ -1171,7 +1188,11 @@ func (ex *Exec) indexAddr(st *State, fr *Frame, ins *ssa.IndexAddr) bool {
 	if !idx.isConst && base.obj != 0 {
 		if _, composite := getPath(st.heap[base.obj].val, base.path).(ArrV); composite {
 			// symbolic index into a host-side vector: case split
-			return ex.forkOnValues(st, idx, 64, "index into composite slice", func(s *State, v uint64) bool {
+			bound := 64
+			if n.isConst && off.isConst && off.v+n.v <= 4096 {
+				bound = int(off.v + n.v) // the index was just shown to be below the length
+			}
+			return ex.forkOnValues(st, idx, bound, "index into composite slice", func(s *State, v uint64) bool {
 				s.top().env[ins] = PtrV{obj: base.obj, path: extendPath(base.path, PathElem{idx: u64(int64(v))})}
 				return true
 			})
